@@ -321,20 +321,40 @@ func C20(run *ev.Run, tier string) map[string]interface{} {
 					ev.Breadcrumb(fmt.Sprintf("C20 %s cfg=%s set=%v request=%v", j.cl.name, j.cfg, j.set, req))
 					// fresh client per request: requests mutate the item
 					var log []int
+					argsWrong := ""
 					native := interpreter.NewNativeInterpreter()
 					register := func() {
 						for i, r := range j.set {
 							i, r := i, r
 							if r.kind == "update" {
-								native.AddUpdater(r.table, r.text, func(item map[string]*itypes.Item, _ map[string]*itypes.Item) {
+								native.AddUpdater(r.table, r.text, func(item map[string]*itypes.Item, values map[string]*itypes.Item) {
 									log = append(log, i)
+									if _, ok := item["h"]; !ok {
+										argsWrong = "the first argument of the updater is not the item"
+									}
+									if _, ok := values[":v"]; !ok {
+										if _, ok := values[":w"]; !ok {
+											argsWrong = "the second argument of the updater does not hold the expression attribute values"
+										}
+									}
 									m := fmt.Sprintf("updater%d", i)
 									item["marker"] = &itypes.Item{S: &m}
 								})
 							} else {
 								verdict := c20Builtin(r) != "items=1" // the opposite of what the built-in interpreter answers
-								native.AddMatcher(r.table, interpreter.ExpressionType(r.kind), r.text, func(_, _ map[string]*itypes.Item) bool {
+								native.AddMatcher(r.table, interpreter.ExpressionType(r.kind), r.text, func(item, values map[string]*itypes.Item) bool {
 									log = append(log, i)
+									// the callback is handed the item first and the expression attribute values second
+									for k := range item {
+										if strings.HasPrefix(k, ":") {
+											argsWrong = "the first argument holds the value placeholder " + k
+										}
+									}
+									if _, ok := values[":v"]; !ok {
+										if _, ok := values[":w"]; !ok {
+											argsWrong = fmt.Sprintf("the second argument does not hold the expression attribute values: %d entries", len(values))
+										}
+									}
 									return verdict
 								})
 							}
@@ -393,7 +413,11 @@ func C20(run *ev.Run, tier string) map[string]interface{} {
 						atomic.AddInt64(&seqEvals, 1)
 					}
 					log = nil
+					argsWrong = ""
 					out, err := j.cl.request(c, req)
+					if argsWrong != "" {
+						run.Report(fmt.Sprintf("C20|callback-received-wrong-arguments|%s@%s", req.kind, j.cl.name), fmt.Sprintf("request %v: %s", req, argsWrong), map[string]interface{}{"client": j.cl.name, "config": j.cfg, "registrations": fmt.Sprint(j.set), "request": fmt.Sprint(req)})
+					}
 					marker := j.cl.marker(c, req.table)
 					atomic.AddInt64(&evals, 1)
 					// expectation
